@@ -14,7 +14,7 @@ STAGES = ("uniform", "opt1", "opt2")
 def _setup(ctx):
     d = ctx.sub("c01")
     for name, ports in portmodels.SCHEMES.items():
-        forms = portmodels.c01_forms(ports, with_strings=(name == "ABC"))
+        forms = portmodels.c01_forms(ports, with_strings=(name in ("ABC", "112")))
         path, isa = portmodels.write_model(d, name, ports, forms)
         mm = drive.MachineModel(path_to_yaml=path)
         sem = drive.ArchSemantics(mm, path_to_yaml=isa)
